@@ -336,3 +336,26 @@ func VerifC12_nestedcell() {
 	vfAssert(outer.GetProperty(k2) == nil, "wrapper-cell-has-only-its-own-properties")
 	vfAssert(inner.GetProperty(k1) == 1, "other-owner-unchanged")
 }
+
+// VerifC12_values: a get returns the very value set last: of two distinct pointers with equal pointees
+// set one after the other under one key, the second one.
+func VerifC12_values() {
+	key := &vfKeyT{50}
+	p1, p2 := &vfKeyT{5}, &vfKeyT{5}
+	t := New()
+	t.AddHeaders("h")
+	t.AddRowItems("a")
+	cell, _ := t.CellAt(CellLocation{Row: 1, Column: 1})
+	owners := []PropertyOwner{t, t.Column(0), t.Column(1), t.AllRows()[0], cell}
+	o := owners[vfChoice("owner", len(owners))]
+	o.SetProperty(key, p1)
+	if vfChoice("other-key-between", 2) == 1 {
+		o.SetProperty(&vfKeyT{51}, 1)
+	}
+	o.SetProperty(key, p2)
+	got, _ := o.GetProperty(key).(*vfKeyT)
+	vfAssert(got == p2, "get-returns-the-value-set-last")
+	p2.n = 6
+	got2, _ := o.GetProperty(key).(*vfKeyT)
+	vfAssert(got2 != nil && got2.n == 6, "get-returns-the-value-set-last")
+}
